@@ -532,7 +532,7 @@ theorem natDigits_million (b : ℕ) (hb : b < 10 ^ 6) :
   rw [e]
   rw [natDigits_ge10 _ (by omega), natDigits_ge10 _ (by omega), natDigits_ge10 _ (by omega), natDigits_ge10 _ (by omega),
     natDigits_ge10 _ (by omega), natDigits_ge10 _ (by omega), natDigits_lt10 _ (by omega)]
-  simp only [List.append_assoc, List.cons_append, List.nil_append, List.cons.injEq, and_true]
+  simp only [List.cons_append, List.nil_append, List.cons.injEq, and_true]
   refine ⟨?_, ?_, ?_, ?_, ?_, ?_, ?_⟩ <;> omega
 
 theorem sixDigits (b : ℕ) (hb : b < 10 ^ 6) (l : List ℕ) :
@@ -910,5 +910,456 @@ theorem printF_digits (bits : ℕ) :
   have h46 : List.filter isDigit [46] = [] := by simp [isDigit]
   rw [h46, List.append_nil, hval, digitsVal_natDigits]
   have := Nat.div_add_mod q (10 ^ 6); rw [Nat.mul_comm] at this; exact this
+
+/-! ## `%e`: seven significant digits -/
+
+theorem natDigits_len_bounds (n : ℕ) (hn : 0 < n) :
+    10 ^ ((natDigits n).length - 1) ≤ n ∧ n < 10 ^ (natDigits n).length := by
+  induction n using Nat.strongRecOn with
+  | _ n ih =>
+    by_cases h : n < 10
+    · rw [natDigits_lt10 n h]; simp; omega
+    · rw [natDigits_ge10 n (by omega)]
+      obtain ⟨h1, h2⟩ := ih (n / 10) (by omega) (by omega)
+      have hl : 0 < (natDigits (n / 10)).length := List.length_pos_of_ne_nil (natDigits_ne_nil _)
+      simp only [List.length_append, List.length_cons, List.length_nil, Nat.zero_add, Nat.add_sub_cancel]
+      constructor
+      · have : (natDigits (n / 10)).length = ((natDigits (n / 10)).length - 1) + 1 := by omega
+        rw [this, pow_succ]
+        have := Nat.div_mul_le_self n 10
+        calc 10 ^ ((natDigits (n / 10)).length - 1) * 10 ≤ n / 10 * 10 := Nat.mul_le_mul_right _ h1
+          _ ≤ n := this
+      · rw [pow_succ]
+        have := Nat.div_add_mod n 10
+        have : n % 10 < 10 := Nat.mod_lt _ (by norm_num)
+        omega
+
+theorem ten_zpow_pos (e : ℤ) : (0 : ℚ) < (10 : ℚ) ^ e := by positivity
+
+theorem ten_zpow_toNat (e : ℤ) (h : 0 ≤ e) : (10 : ℚ) ^ e = ((10 ^ e.toNat : ℕ) : ℚ) := by
+  conv_lhs => rw [← Int.toNat_of_nonneg h]
+  rw [zpow_natCast]; push_cast; rfl
+
+theorem ten_zpow_neg_toNat (e : ℤ) (h : e < 0) : (10 : ℚ) ^ e = 1 / ((10 ^ (-e).toNat : ℕ) : ℚ) := by
+  have : e = -((-e).toNat : ℤ) := by rw [Int.toNat_of_nonneg (by omega)]; omega
+  conv_lhs => rw [this]
+  rw [zpow_neg, zpow_natCast]; push_cast; simp
+
+theorem geTenPow_iff (n d : ℕ) (hd : 0 < d) (k : ℤ) : geTenPow n d k = true ↔ (10 : ℚ) ^ k ≤ (n : ℚ) / d := by
+  have hdq : (0 : ℚ) < d := by positivity
+  unfold geTenPow
+  by_cases h : k ≥ 0
+  · simp only [h, if_true, decide_eq_true_eq, ge_iff_le]
+    rw [ten_zpow_toNat k h, le_div_iff₀ hdq]
+    constructor
+    · intro hh; have : ((d * 10 ^ k.toNat : ℕ) : ℚ) ≤ (n : ℚ) := by exact_mod_cast hh
+      push_cast at this ⊢; linarith
+    · intro hh; have : ((d * 10 ^ k.toNat : ℕ) : ℚ) ≤ (n : ℚ) := by push_cast at hh ⊢; linarith
+      exact_mod_cast this
+  · simp only [h, if_false, decide_eq_true_eq, ge_iff_le]
+    rw [ten_zpow_neg_toNat k (by omega), le_div_iff₀ hdq]
+    have hp : (0 : ℚ) < ((10 ^ (-k).toNat : ℕ) : ℚ) := by positivity
+    rw [div_mul_eq_mul_div, div_le_iff₀ hp, one_mul]
+    constructor
+    · intro hh; exact_mod_cast hh
+    · intro hh; exact_mod_cast hh
+
+theorem len_bounds_q (n : ℕ) (hn : 0 < n) :
+    (10 : ℚ) ^ (((natDigits n).length : ℤ) - 1) ≤ n ∧ (n : ℚ) < (10 : ℚ) ^ ((natDigits n).length : ℤ) := by
+  obtain ⟨h1, h2⟩ := natDigits_len_bounds n hn
+  have hl : 0 < (natDigits n).length := List.length_pos_of_ne_nil (natDigits_ne_nil _)
+  constructor
+  · have : (((natDigits n).length : ℤ) - 1) = (((natDigits n).length - 1 : ℕ) : ℤ) := by omega
+    rw [this, zpow_natCast]; exact_mod_cast h1
+  · rw [zpow_natCast]; exact_mod_cast h2
+
+/-- `floorLog10` is the decimal exponent -/
+theorem floorLog10_spec (n d : ℕ) (hn : 0 < n) (hd : 0 < d) :
+    (10 : ℚ) ^ (floorLog10 n d) ≤ (n : ℚ) / d ∧ (n : ℚ) / d < (10 : ℚ) ^ (floorLog10 n d + 1) := by
+  obtain ⟨n1, n2⟩ := len_bounds_q n hn
+  obtain ⟨d1, d2⟩ := len_bounds_q d hd
+  have hdq : (0 : ℚ) < d := by positivity
+  have h10 : (10 : ℚ) ≠ 0 := by norm_num
+  unfold floorLog10
+  set a : ℤ := ((natDigits n).length : ℤ)
+  set b : ℤ := ((natDigits d).length : ℤ)
+  simp only
+  by_cases hg : geTenPow n d (a - b) = true
+  · simp only [hg, if_true]
+    refine ⟨(geTenPow_iff n d hd _).1 hg, ?_⟩
+    rw [div_lt_iff₀ hdq]
+    have e : (10 : ℚ) ^ (a - b + 1) * (10 : ℚ) ^ (b - 1) = (10 : ℚ) ^ a := by
+      rw [← zpow_add₀ h10]; congr 1; ring
+    calc (n : ℚ) < (10 : ℚ) ^ a := n2
+      _ = (10 : ℚ) ^ (a - b + 1) * (10 : ℚ) ^ (b - 1) := e.symm
+      _ ≤ (10 : ℚ) ^ (a - b + 1) * d := mul_le_mul_of_nonneg_left d1 (le_of_lt (ten_zpow_pos _))
+  · have hg' : geTenPow n d (a - b) = false := by simpa using hg
+    simp only [hg', Bool.false_eq_true, if_false]
+    have hlt : (n : ℚ) / d < (10 : ℚ) ^ (a - b) := by
+      rw [← not_le]; intro hh; exact hg ((geTenPow_iff n d hd _).2 hh)
+    refine ⟨?_, by rwa [show a - b - 1 + 1 = a - b by ring]⟩
+    rw [le_div_iff₀ hdq]
+    have e : (10 : ℚ) ^ (a - b - 1) * (10 : ℚ) ^ b = (10 : ℚ) ^ (a - 1) := by
+      rw [← zpow_add₀ h10]; congr 1; ring
+    calc (10 : ℚ) ^ (a - b - 1) * d ≤ (10 : ℚ) ^ (a - b - 1) * (10 : ℚ) ^ b :=
+          mul_le_mul_of_nonneg_left (le_of_lt d2) (le_of_lt (ten_zpow_pos _))
+      _ = (10 : ℚ) ^ (a - 1) := e
+      _ ≤ n := n1
+
+/-- `scaleRound` is the nearest integer to `n/d · 10^s` -/
+theorem scaleRound_spec (n d : ℕ) (hd : 0 < d) (s : ℤ) :
+    |(scaleRound n d s : ℚ) - (n : ℚ) / d * (10 : ℚ) ^ s| ≤ 1 / 2 := by
+  have hdq : (d : ℚ) ≠ 0 := by positivity
+  unfold scaleRound
+  by_cases h : s ≥ 0
+  · simp only [h, if_true]
+    have := (rhe_spec (n * 10 ^ s.toNat) d hd).1
+    have e : ((n * 10 ^ s.toNat : ℕ) : ℚ) / d = (n : ℚ) / d * (10 : ℚ) ^ s := by
+      rw [ten_zpow_toNat s h]; push_cast; field_simp
+    rwa [e] at this
+  · simp only [h, if_false]
+    have hden : 0 < d * 10 ^ (-s).toNat := by positivity
+    have := (rhe_spec n (d * 10 ^ (-s).toNat) hden).1
+    have e : (n : ℚ) / ((d * 10 ^ (-s).toNat : ℕ) : ℚ) = (n : ℚ) / d * (10 : ℚ) ^ s := by
+      rw [ten_zpow_neg_toNat s (by omega)]; push_cast; field_simp
+    rwa [e] at this
+
+
+/-- seven significant digits: `10^6 ≤ D < 10^7`, the exponent is the decimal exponent or (after a carry) one more, and
+    `D · 10^(X-6)` is within half a unit of the seventh digit of `n/d` -/
+theorem sciDigits6_spec (n d : ℕ) (hn : 0 < n) (hd : 0 < d) :
+    10 ^ 6 ≤ (sciDigits 6 n d).1 ∧ (sciDigits 6 n d).1 < 10 ^ 7 ∧
+    ((sciDigits 6 n d).2 = floorLog10 n d ∨ (sciDigits 6 n d).2 = floorLog10 n d + 1) ∧
+    |(n : ℚ) / d - ((sciDigits 6 n d).1 : ℚ) * (10 : ℚ) ^ ((sciDigits 6 n d).2 - 6)| ≤ (10 : ℚ) ^ (floorLog10 n d - 6) / 2 := by
+  obtain ⟨f1, f2⟩ := floorLog10_spec n d hn hd
+  have h10 : (10 : ℚ) ≠ 0 := by norm_num
+  simp only [sciDigits, Nat.cast_ofNat]
+  generalize floorLog10 n d = x0 at *
+  have hs := scaleRound_spec n d hd ((6 : ℤ) - x0)
+  have hu := ten_zpow_pos (x0 - 6)
+  have hsc := ten_zpow_pos ((6 : ℤ) - x0)
+  -- the scaled value lies in [10^6, 10^7)
+  have e6 : (10 : ℚ) ^ x0 * (10 : ℚ) ^ ((6 : ℤ) - x0) = 10 ^ 6 := by
+    rw [← zpow_add₀ h10]; have : x0 + (6 - x0) = ((6 : ℕ) : ℤ) := by ring
+    rw [this, zpow_natCast]
+  have e7 : (10 : ℚ) ^ (x0 + 1) * (10 : ℚ) ^ ((6 : ℤ) - x0) = 10 ^ 7 := by
+    rw [← zpow_add₀ h10]; have : x0 + 1 + (6 - x0) = ((7 : ℕ) : ℤ) := by ring
+    rw [this, zpow_natCast]
+  have r1 : (10 : ℚ) ^ 6 ≤ (n : ℚ) / d * (10 : ℚ) ^ ((6 : ℤ) - x0) := by
+    rw [← e6]; exact mul_le_mul_of_nonneg_right f1 (le_of_lt hsc)
+  have r2 : (n : ℚ) / d * (10 : ℚ) ^ ((6 : ℤ) - x0) < 10 ^ 7 := by
+    rw [← e7]; exact mul_lt_mul_of_pos_right f2 hsc
+  have hnd : (n : ℚ) / d = (n : ℚ) / d * (10 : ℚ) ^ ((6 : ℤ) - x0) * (10 : ℚ) ^ (x0 - 6) := by
+    rw [mul_assoc, ← zpow_add₀ h10]; have : (6 : ℤ) - x0 + (x0 - 6) = 0 := by ring
+    rw [this, zpow_zero, mul_one]
+  generalize (n : ℚ) / d * (10 : ℚ) ^ ((6 : ℤ) - x0) = ρ at *
+  have hs' := abs_le.1 hs
+  generalize scaleRound n d ((6 : ℤ) - x0) = d0 at *
+  have d0lo : 10 ^ 6 ≤ d0 := by
+    have : ((10 ^ 6 : ℕ) : ℚ) < (d0 : ℚ) + 1 := by push_cast; linarith [hs'.1]
+    have : 10 ^ 6 < d0 + 1 := by exact_mod_cast this
+    omega
+  have d0hi : d0 ≤ 10 ^ 7 := by
+    have : (d0 : ℚ) < ((10 ^ 7 : ℕ) : ℚ) + 1 := by push_cast; linarith [hs'.2]
+    have : d0 < 10 ^ 7 + 1 := by exact_mod_cast this
+    omega
+  have herr : |ρ * (10 : ℚ) ^ (x0 - 6) - (d0 : ℚ) * (10 : ℚ) ^ (x0 - 6)| ≤ (10 : ℚ) ^ (x0 - 6) / 2 := by
+    rw [← sub_mul, abs_mul, abs_of_pos hu, abs_sub_comm]
+    calc |(d0 : ℚ) - ρ| * (10 : ℚ) ^ (x0 - 6) ≤ 1 / 2 * (10 : ℚ) ^ (x0 - 6) := mul_le_mul_of_nonneg_right hs (le_of_lt hu)
+      _ = (10 : ℚ) ^ (x0 - 6) / 2 := by ring
+  by_cases hc : d0 ≥ 10 ^ (6 + 1)
+  · have hd0 : d0 = 10 ^ 7 := by omega
+    simp only [hc, if_true]
+    refine ⟨le_refl _, by norm_num, by simp, ?_⟩
+    have : ((10 ^ 6 : ℕ) : ℚ) * (10 : ℚ) ^ (x0 + 1 - 6) = (d0 : ℚ) * (10 : ℚ) ^ (x0 - 6) := by
+      rw [hd0]; push_cast
+      have : x0 + 1 - 6 = (x0 - 6) + 1 := by ring
+      rw [this, zpow_add₀ h10, zpow_one]; ring
+    rw [this, hnd]; exact herr
+  · simp only [hc, if_false]
+    refine ⟨d0lo, by omega, by simp, ?_⟩
+    rw [hnd]; exact herr
+
+theorem digitsVal_zero_cons (l : List ℕ) : digitsVal (48 :: l) = digitsVal l := by
+  simp [digitsVal]
+
+/-- the exponent part printf writes denotes the exponent -/
+theorem expText_val (upper : Bool) (x : ℤ) : ∃ l s ed, expText upper x = l :: s :: ed ∧ (l = 101 ∨ l = 69) ∧ (s = 43 ∨ s = 45) ∧
+    (∀ b ∈ ed, isDigit b = true) ∧ exVal (some (l, s, ed)) = x := by
+  refine ⟨if upper then 69 else 101, if x < 0 then 45 else 43, (if x.natAbs < 10 then [48] else []) ++ natDigits x.natAbs, ?_, ?_, ?_, ?_, ?_⟩
+  · simp [expText]
+  · cases upper <;> simp
+  · split <;> simp
+  · intro b hb
+    simp only [List.mem_append] at hb
+    rcases hb with hb | hb
+    · split at hb <;> simp at hb; subst hb; rfl
+    · exact natDigits_isDigit _ b hb
+  · have hv : digitsVal ((if x.natAbs < 10 then [48] else []) ++ natDigits x.natAbs) = x.natAbs := by
+      split
+      · simp only [List.cons_append, List.nil_append]; rw [digitsVal_zero_cons, digitsVal_natDigits]
+      · simp only [List.nil_append]; rw [digitsVal_natDigits]
+    simp only [exVal, hv]
+    by_cases hx : x < 0
+    · simp only [hx, if_true]; omega
+    · simp only [hx, if_false]; norm_num; omega
+
+/-- what scanf makes of the text `%e` wrote for `bits`: the decimal `D · 10^(X-6)`, converted to the destination -/
+theorem printE_parse (narrow upper : Bool) (bits : ℕ) :
+    scanFloating narrow (printE upper bits) =
+      .ok (decToBitsW narrow (fDecode bits).1
+        (if (fDecode bits).2.1 = 0 then ((0, 0) : ℕ × ℤ) else
+          sciDigits 6 (fFrac (fDecode bits).2.1 (fDecode bits).2.2).1 (fFrac (fDecode bits).2.1 (fDecode bits).2.2).2).1
+        ((if (fDecode bits).2.1 = 0 then ((0, 0) : ℕ × ℤ) else
+          sciDigits 6 (fFrac (fDecode bits).2.1 (fDecode bits).2.2).1 (fFrac (fDecode bits).2.1 (fDecode bits).2.2).2).2 - 6), []) := by
+  simp only [printE]
+  generalize fDecode bits = dd
+  obtain ⟨sg, m, e⟩ := dd
+  simp only
+  generalize (if m = 0 then ((0, 0) : ℕ × ℤ) else sciDigits 6 (fFrac m e).1 (fFrac m e).2) = dx
+  obtain ⟨l, s, ed, hE, hl, hs, hed, hval⟩ := expText_val upper dx.2
+  have hlt : dx.1 % 10 ^ 6 < 10 ^ 6 := Nat.mod_lt _ (by norm_num)
+  obtain ⟨hlen, hdv⟩ := sixDigits (dx.1 % 10 ^ 6) hlt (natDigits (dx.1 / 10 ^ 6))
+  have := scanFloating_shape narrow sg (natDigits (dx.1 / 10 ^ 6)) (some ((natDigits (10 ^ 6 + dx.1 % 10 ^ 6)).drop 1))
+    (some (l, s, ed)) [] (natDigits_isDigit _) (natDigits_ne_nil _) (by intro fp h; cases h; exact sixDigits_isDigit dx.1)
+    (by intro l' s' ed' h; cases h; exact ⟨hl, hs, hed⟩) (by rfl)
+  simp only [dotText, Option.getD_some, hlen, hdv, digitsVal_natDigits, hval, List.append_nil] at this
+  have hq : dx.1 / 10 ^ 6 * 10 ^ 6 + dx.1 % 10 ^ 6 = dx.1 := by
+    have := Nat.div_add_mod dx.1 (10 ^ 6); rw [Nat.mul_comm] at this; exact this
+  rw [hq] at this
+  rw [hE]
+  simpa [exText, List.append_assoc] using this
+
+
+theorem fFrac_val (m : ℕ) (e : ℤ) :
+    0 < (fFrac m e).2 ∧ (0 < m → 0 < (fFrac m e).1) ∧ ((fFrac m e).1 : ℚ) / (fFrac m e).2 = val m e := by
+  unfold fFrac val
+  by_cases h : e ≥ 0
+  · simp only [h, if_true]
+    refine ⟨by norm_num, fun hm => by positivity, ?_⟩
+    rw [two_zpow_toNat e h]; push_cast; ring
+  · simp only [h, if_false]
+    refine ⟨by positivity, fun hm => hm, ?_⟩
+    rw [two_zpow_neg_toNat e (by omega)]; push_cast; ring
+
+theorem ten_zpow_lt_iff (a b : ℤ) : (10 : ℚ) ^ a < (10 : ℚ) ^ b ↔ a < b :=
+  zpow_lt_zpow_iff_right₀ (by norm_num)
+
+theorem natDigits_len7 (D : ℕ) (h1 : 10 ^ 6 ≤ D) (h2 : D < 10 ^ 7) : (natDigits D).length = 7 := by
+  obtain ⟨b1, b2⟩ := natDigits_len_bounds D (by omega)
+  by_contra hne
+  rcases Nat.lt_or_gt_of_ne hne with h | h
+  · have : 10 ^ (natDigits D).length ≤ 10 ^ 6 := Nat.pow_le_pow_right (by norm_num) (by omega)
+    omega
+  · have : 10 ^ 7 ≤ 10 ^ ((natDigits D).length - 1) := Nat.pow_le_pow_right (by norm_num) (by omega)
+    omega
+
+/-- the largest finite double -/
+def maxM : ℕ := 2 ^ 53 - 1
+
+/-- **`%le` / `%lE`: the double read back is at least as close to the seven-digit decimal that was written as the double written**,
+    finite, with the same sign; the decimal is within half a unit of its seventh digit of the double written -/
+theorem reparseE_near (upper : Bool) (bits : ℕ) (hfin : fFinite bits = true) (hnz : (fDecode bits).2.1 ≠ 0) :
+    ∃ (my : ℕ) (ey : ℤ) (t : ℚ) (x0 : ℤ),
+      fDecode (reparseSpec false (if upper then .E else .e) bits) = ((fDecode bits).1, my, ey) ∧
+      fFinite (reparseSpec false (if upper then .E else .e) bits) = true ∧
+      (10 : ℚ) ^ x0 ≤ val (fDecode bits).2.1 (fDecode bits).2.2 ∧
+      |val (fDecode bits).2.1 (fDecode bits).2.2 - t| ≤ (10 : ℚ) ^ (x0 - 6) / 2 ∧
+      |val my ey - t| ≤ |val (fDecode bits).2.1 (fDecode bits).2.2 - t| := by
+  obtain ⟨hmx, hex1, hex2⟩ := fDecode_finite bits hfin
+  have hparse := printE_parse false upper bits
+  have hre : reparseSpec false (if upper then .E else .e) bits =
+      decToBitsW false (fDecode bits).1
+        (sciDigits 6 (fFrac (fDecode bits).2.1 (fDecode bits).2.2).1 (fFrac (fDecode bits).2.1 (fDecode bits).2.2).2).1
+        ((sciDigits 6 (fFrac (fDecode bits).2.1 (fDecode bits).2.2).1 (fFrac (fDecode bits).2.1 (fDecode bits).2.2).2).2 - 6) := by
+    simp only [hnz, if_false] at hparse
+    cases upper <;> simp only [reparseSpec, printFloatSpec, hparse, if_true, Bool.false_eq_true, if_false]
+  generalize (fDecode bits).1 = sg at *
+  generalize (fDecode bits).2.1 = mx at *
+  generalize (fDecode bits).2.2 = ex at *
+  have hmpos : 0 < mx := by omega
+  obtain ⟨hd, hn, hfv⟩ := fFrac_val mx ex
+  have hn := hn hmpos
+  obtain ⟨D1, D2, hX, herr⟩ := sciDigits6_spec _ _ hn hd
+  obtain ⟨f1, f2⟩ := floorLog10_spec _ _ hn hd
+  rw [hfv] at herr f1 f2
+  generalize floorLog10 (fFrac mx ex).1 (fFrac mx ex).2 = x0 at *
+  generalize (sciDigits 6 (fFrac mx ex).1 (fFrac mx ex).2).1 = D at *
+  generalize (sciDigits 6 (fFrac mx ex).1 (fFrac mx ex).2).2 = X at *
+  have h10 : (10 : ℚ) ≠ 0 := by norm_num
+  have h2ne : (2 : ℚ) ≠ 0 := by norm_num
+  -- the range of the decimal exponent of a finite double
+  have hxlt : val mx ex < (2 : ℚ) ^ (1024 : ℕ) := by
+    have h1 : val mx ex < (2 : ℚ) ^ ((53 : ℕ) + (971 : ℤ)) := lt_of_le_of_lt (val_mono_exp mx ex 971 hex2) (val_lt mx 971 53 hmx)
+    have h2 : (2 : ℚ) ^ (((53 : ℕ) : ℤ) + (971 : ℤ)) = (2 : ℚ) ^ (1024 : ℕ) := by rw [← zpow_natCast]; congr 1
+    rwa [h2] at h1
+  have hxge : (2 : ℚ) ^ (-1074 : ℤ) ≤ val mx ex := by
+    have h1 : (2 : ℚ) ^ (((0 : ℕ) : ℤ) + ex) ≤ val mx ex := val_ge mx ex 0 (by norm_num; omega)
+    have h2 : (2 : ℚ) ^ (-1074 : ℤ) ≤ (2 : ℚ) ^ (((0 : ℕ) : ℤ) + ex) := zpow_le_zpow_right₀ (by norm_num) (by simpa using hex1)
+    linarith
+  have hx0hi : x0 ≤ 308 := by
+    have h1 : (2 : ℚ) ^ (1024 : ℕ) ≤ (10 : ℚ) ^ ((309 : ℕ) : ℤ) := by
+      rw [zpow_natCast]
+      have : 2 ^ 1024 ≤ 10 ^ 309 := by decide +kernel
+      exact_mod_cast this
+    have : (10 : ℚ) ^ x0 < (10 : ℚ) ^ ((309 : ℕ) : ℤ) := lt_of_le_of_lt f1 (lt_of_lt_of_le hxlt h1)
+    have := (ten_zpow_lt_iff _ _).1 this
+    omega
+  have hx0lo : -324 ≤ x0 := by
+    have h1 : (10 : ℚ) ^ (-324 : ℤ) ≤ (2 : ℚ) ^ (-1074 : ℤ) := by
+      rw [show (-324 : ℤ) = -((324 : ℕ) : ℤ) by norm_num, show (-1074 : ℤ) = -((1074 : ℕ) : ℤ) by norm_num, zpow_neg, zpow_neg,
+        zpow_natCast, zpow_natCast]
+      have h : 2 ^ 1074 ≤ 10 ^ 324 := by decide +kernel
+      have h' : ((2 ^ 1074 : ℕ) : ℚ) ≤ ((10 ^ 324 : ℕ) : ℚ) := by exact_mod_cast h
+      push_cast at h'
+      exact inv_anti₀ (by positivity) h'
+    have : (10 : ℚ) ^ (-324 : ℤ) < (10 : ℚ) ^ (x0 + 1) := lt_of_le_of_lt (le_trans h1 hxge) f2
+    have := (ten_zpow_lt_iff _ _).1 this
+    omega
+  have hXlo : -324 ≤ X := by rcases hX with h | h <;> omega
+  have hXhi : X ≤ 309 := by rcases hX with h | h <;> omega
+  -- the decimal
+  set t : ℚ := (D : ℚ) * (10 : ℚ) ^ (X - 6) with ht
+  -- `decToBitsW` converts it with `ratToBits`
+  have hD0 : ¬ D = 0 := by omega
+  have hlen := natDigits_len7 D D1 D2
+  obtain ⟨n', d', hn', hd', hnd', hrb⟩ : ∃ n' d' : ℕ, 0 < n' ∧ 0 < d' ∧ (n' : ℚ) / d' = t ∧
+      decToBitsW false sg D (X - 6) = ratToBits sg n' d' := by
+    unfold decToBitsW
+    have c1 : ¬ (X - 6 + ((natDigits D).length : ℤ) > 400) := by rw [hlen]; omega
+    have c2 : ¬ (X - 6 + ((natDigits D).length : ℤ) < -400) := by rw [hlen]; omega
+    simp only [hD0, c1, c2, if_false, Bool.false_eq_true]
+    by_cases hk : X - 6 ≥ 0
+    · refine ⟨D * 10 ^ (X - 6).toNat, 1, by positivity, by norm_num, ?_, by simp only [hk, if_true]⟩
+      rw [ht, ten_zpow_toNat _ hk]; push_cast; ring
+    · refine ⟨D, 10 ^ (-(X - 6)).toNat, by omega, by positivity, ?_, by simp only [hk, if_false]⟩
+      rw [ht, ten_zpow_neg_toNat _ (by omega)]; push_cast; ring
+  rw [hrb] at hre
+  have hn0 : ¬ n' = 0 := by omega
+  simp only [ratToBits, hn0, if_false] at hre
+  have R := roundRat_ok 53 (-1074) n' d' hn' hd' (by norm_num)
+  generalize (roundRat 53 (-1074) n' d').1 = my at *
+  generalize (roundRat 53 (-1074) n' d').2 = ey at *
+  have hnear := R.nearest mx ex hmx hex1
+  rw [hnd'] at hnear
+  have hu := ten_zpow_pos (x0 - 6)
+  -- no overflow
+  have hno : 2 ^ 52 ≤ my → -1074 ≤ ey ∧ ey + 1075 < 2047 := by
+    intro hmy
+    refine ⟨R.emin_le, ?_⟩
+    by_contra hov
+    have hey : 972 ≤ ey := by omega
+    have hy : (2 : ℚ) ^ (((52 : ℕ) : ℤ) + 972) ≤ val my ey := le_trans (val_ge my 972 52 hmy) (val_mono_exp my 972 ey hey)
+    have e1 : (2 : ℚ) ^ (((52 : ℕ) : ℤ) + 972) = (2 : ℚ) ^ (1024 : ℕ) := by rw [← zpow_natCast]; congr 1
+    rw [e1] at hy
+    -- x ≤ M := (2^53 - 1) · 2^971
+    have hxM : val mx ex ≤ ((maxM * 2 ^ 971 : ℕ) : ℚ) := by
+      have hx : val mx ex ≤ val mx 971 := val_mono_exp mx ex 971 hex2
+      have : val mx 971 ≤ ((maxM * 2 ^ 971 : ℕ) : ℚ) := by
+        unfold val maxM
+        have e2 : (2 : ℚ) ^ (971 : ℤ) = ((2 ^ 971 : ℕ) : ℚ) := by
+          rw [show (971 : ℤ) = ((971 : ℕ) : ℤ) by rfl, zpow_natCast]; push_cast; rfl
+        rw [e2, Nat.cast_mul]
+        apply mul_le_mul_of_nonneg_right _ (by positivity)
+        have : mx ≤ 2 ^ 53 - 1 := by omega
+        exact_mod_cast this
+      linarith
+    -- u ≤ 10^302
+    have hu302 : (10 : ℚ) ^ (x0 - 6) ≤ ((10 ^ 302 : ℕ) : ℚ) := by
+      have : (10 : ℚ) ^ (x0 - 6) ≤ (10 : ℚ) ^ ((302 : ℕ) : ℤ) := zpow_le_zpow_right₀ (by norm_num) (by omega)
+      rw [zpow_natCast] at this; exact_mod_cast this
+    have a2 := abs_le.1 herr
+    -- the decimal does not exceed the largest finite double: below 10^308 trivially; from 10^308 on it is a multiple of 10^302
+    -- and at most M + 10^302/2, and the largest such multiple is 1797693 · 10^302 ≤ M
+    have ht_hi : t ≤ ((maxM * 2 ^ 971 : ℕ) : ℚ) + ((10 ^ 302 : ℕ) : ℚ) / 2 := by linarith [a2.1]
+    have hM308 : ((10 ^ 308 : ℕ) : ℚ) ≤ ((maxM * 2 ^ 971 : ℕ) : ℚ) := by
+      have : 10 ^ 308 ≤ maxM * 2 ^ 971 := by decide +kernel
+      exact_mod_cast this
+    have htM : t ≤ ((maxM * 2 ^ 971 : ℕ) : ℚ) := by
+      by_cases hc : X ≤ 307
+      · have hXle : X - 6 ≤ ((301 : ℕ) : ℤ) := by omega
+        have h1 : (10 : ℚ) ^ (X - 6) ≤ (10 : ℚ) ^ ((301 : ℕ) : ℤ) := zpow_le_zpow_right₀ (by norm_num) hXle
+        rw [zpow_natCast] at h1
+        have h2 : (D : ℚ) < ((10 ^ 7 : ℕ) : ℚ) := by exact_mod_cast D2
+        have h3 : (0 : ℚ) < (10 : ℚ) ^ (X - 6) := ten_zpow_pos _
+        have : t < ((10 ^ 308 : ℕ) : ℚ) := by
+          calc t = (D : ℚ) * (10 : ℚ) ^ (X - 6) := ht
+            _ < ((10 ^ 7 : ℕ) : ℚ) * (10 : ℚ) ^ (X - 6) := mul_lt_mul_of_pos_right h2 h3
+            _ ≤ ((10 ^ 7 : ℕ) : ℚ) * (10 : ℚ) ^ (301 : ℕ) := mul_le_mul_of_nonneg_left h1 (by positivity)
+            _ = ((10 ^ 308 : ℕ) : ℚ) := by
+              push_cast; rw [show (308 : ℕ) = 7 + 301 by rfl, pow_add]; norm_num
+        linarith
+      · obtain ⟨j, hj⟩ : ∃ j : ℕ, t = ((j * 10 ^ 302 : ℕ) : ℚ) := by
+          refine ⟨D * 10 ^ (X - 308).toNat, ?_⟩
+          have : X - 6 = (((X - 308).toNat + 302 : ℕ) : ℤ) := by push_cast; rw [Int.toNat_of_nonneg (by omega)]; ring
+          rw [ht, this, zpow_natCast]; push_cast; rw [pow_add]; ring
+        rw [hj] at ht_hi ⊢
+        have hhi' : 2 * (j * 10 ^ 302) ≤ 2 * (maxM * 2 ^ 971) + 10 ^ 302 := by
+          have : ((2 * (j * 10 ^ 302) : ℕ) : ℚ) ≤ ((2 * (maxM * 2 ^ 971) + 10 ^ 302 : ℕ) : ℚ) := by push_cast at ht_hi ⊢; linarith
+          exact_mod_cast this
+        have k1 : 1797693 * 10 ^ 302 ≤ maxM * 2 ^ 971 := by decide +kernel
+        have k2 : 2 * (maxM * 2 ^ 971) + 10 ^ 302 < 2 * (1797694 * 10 ^ 302) := by decide +kernel
+        have hjle : j * 10 ^ 302 ≤ maxM * 2 ^ 971 := by
+          rcases Nat.lt_or_ge j 1797694 with hjl | hjg
+          · have : j * 10 ^ 302 ≤ 1797693 * 10 ^ 302 := Nat.mul_le_mul_right _ (by omega)
+            omega
+          · have : 1797694 * 10 ^ 302 ≤ j * 10 ^ 302 := Nat.mul_le_mul_right _ hjg
+            omega
+        exact_mod_cast hjle
+    -- but then M itself is closer to the decimal than anything from 2^1024 on
+    have hnM := R.nearest maxM 971 (by unfold maxM; norm_num) (by norm_num)
+    rw [hnd'] at hnM
+    have hvM : val maxM 971 = ((maxM * 2 ^ 971 : ℕ) : ℚ) := by
+      unfold val
+      rw [show (971 : ℤ) = ((971 : ℕ) : ℤ) by rfl, zpow_natCast]; push_cast; rfl
+    rw [hvM] at hnM
+    have hMlt : ((maxM * 2 ^ 971 : ℕ) : ℚ) < (2 : ℚ) ^ (1024 : ℕ) := by
+      have : maxM * 2 ^ 971 < 2 ^ 1024 := by decide +kernel
+      have h' : ((maxM * 2 ^ 971 : ℕ) : ℚ) < ((2 ^ 1024 : ℕ) : ℚ) := by exact_mod_cast this
+      push_cast at h' ⊢; exact h'
+    rw [abs_of_nonneg (by linarith), abs_of_nonneg (by linarith)] at hnM
+    generalize ((maxM * 2 ^ 971 : ℕ) : ℚ) = Mq at *
+    generalize (2 : ℚ) ^ (1024 : ℕ) = T at *
+    linarith only [hnM, hy, hMlt]
+  have hsubn : my < 2 ^ 52 → ey = -1074 := by
+    intro hmy
+    by_contra hne
+    have := R.normal (by have := R.emin_le; omega)
+    omega
+  obtain ⟨hdec, hfin'⟩ := fDecode_encode sg my ey R.lt hsubn hno
+  rw [hre]
+  exact ⟨my, ey, t, x0, hdec, hfin', f1, herr, hnear⟩
+
+
+/-- **`%le` / `%lE`, numerically**: same sign, finite, and within one millionth of the value written (one unit of the seventh
+    significant digit at most) -/
+theorem reparseE_within (upper : Bool) (bits : ℕ) (hfin : fFinite bits = true) :
+    (fDecode (reparseSpec false (if upper then .E else .e) bits)).1 = (fDecode bits).1 ∧
+    fFinite (reparseSpec false (if upper then .E else .e) bits) = true ∧
+    |val (fDecode (reparseSpec false (if upper then .E else .e) bits)).2.1 (fDecode (reparseSpec false (if upper then .E else .e) bits)).2.2
+        - val (fDecode bits).2.1 (fDecode bits).2.2| ≤ val (fDecode bits).2.1 (fDecode bits).2.2 / 10 ^ 6 := by
+  by_cases hnz : (fDecode bits).2.1 = 0
+  · -- ±0 is written `±0.000000e+00` and read back as ±0
+    have hparse := printE_parse false upper bits
+    simp only [hnz, if_true] at hparse
+    have hre : reparseSpec false (if upper then .E else .e) bits = signBit (fDecode bits).1 := by
+      cases upper <;> simp [reparseSpec, printFloatSpec, hparse, decToBitsW]
+    rw [hre, fDecode_signBit, hnz]
+    refine ⟨rfl, ?_, by simp [val]⟩
+    have := (fDecode_encode (fDecode bits).1 0 (-1074) (by norm_num) (fun _ => rfl) (fun h => absurd h (by norm_num))).2
+    simpa [encode64] using this
+  · obtain ⟨my, ey, t, x0, hdec, hfin', hlo, herr, hnear⟩ := reparseE_near upper bits hfin hnz
+    rw [hdec]
+    refine ⟨rfl, hfin', ?_⟩
+    simp only
+    have a1 := abs_le.1 (le_trans hnear herr)
+    have a2 := abs_le.1 herr
+    have hu : (10 : ℚ) ^ (x0 - 6) = (10 : ℚ) ^ x0 / 10 ^ 6 := by
+      rw [zpow_sub₀ (by norm_num : (10 : ℚ) ≠ 0)]; norm_num
+    have hle : (10 : ℚ) ^ x0 / 10 ^ 6 ≤ val (fDecode bits).2.1 (fDecode bits).2.2 / 10 ^ 6 :=
+      div_le_div_of_nonneg_right hlo (by norm_num)
+    rw [abs_le]
+    rw [hu] at a1 a2
+    constructor <;> linarith only [a1.1, a1.2, a2.1, a2.2, hle]
 
 end Cello.Text
